@@ -10,13 +10,25 @@ A *program* is a list of ops (plain tuples, JSON-friendly for replays):
 """
 from .model import runs
 
+class Obj(object):
+    """a node id that hashes by identity (plain application object)"""
+    __slots__ = ("label",)
+
+    def __init__(self, label):
+        self.label = label
+
+    def __repr__(self):
+        return "Obj(%r)" % (self.label,)
+
+
 RP_CLASSES = ("before", "gap", "adjacent", "overlap", "overlap@start", "contained",
               "contained@end", "duplicate")
 
 
 # ------------------------------------------------------------------ node / time families
 def node_family(rng, n, family=None):
-    fams = ("int", "int", "int", "negint", "str", "str_", "tuple", "frozenset", "mixed", "eqkeys")
+    fams = ("int", "int", "int", "negint", "str", "str_", "tuple", "frozenset", "mixed", "eqkeys", "objects",
+            "special")
     family = family or rng.choice(fams)
     if family == "int":
         base = rng.choice((0, 1, 10))
@@ -34,6 +46,12 @@ def node_family(rng, n, family=None):
     elif family == "mixed":
         pool = [0, "0", (0,), frozenset((0,)), "", "b_1", 2.5, -1]
         ids = pool[:n]
+    elif family == "special":
+        # strings with characters that matter to formatting / comment handling somewhere
+        pool = ["cpu>90%", "%s", "a#b", "100%d", "{}", "x\\y", "BZhang", "%(u)s"]
+        ids = pool[:n]
+    elif family == "objects":
+        ids = [Obj(i) for i in range(n)]
     elif family == "eqkeys":
         # 1 == 1.0 == True hash alike: the library must treat them as ONE node
         pool = [1, 2, 3, 4, 5, 6, 7, 8]
@@ -164,6 +182,11 @@ def random_program(rng, model_factory, n_ops=None, directed=False, family=None, 
         prog.append(("node", "iso", {"label": [1, {"x": 2}], "w": 3}))
     if with_nodes and rng.random() < 0.3:
         prog.append(("node", ids[0], {"color": "red", "tags": ["a", "b"]}))
+    if with_nodes and rng.random() < 0.15:
+        # attribute names that coincide with parameter names used inside the library
+        prog.append(("node", ids[-1], {"n": 3, "t": [1], "u": "x", "data": {"k": 1}}))
+    if with_nodes and rng.random() < 0.1:
+        prog.append(("nodes_from", [(ids[0], {7: "non-string key", "w": 1})]))
     pairs = []
     for _ in range(n_ops):
         r = rng.random()
@@ -182,6 +205,15 @@ def random_program(rng, model_factory, n_ops=None, directed=False, family=None, 
                 ns.append(ns[0])
             t = t0 + rng.randint(0, tw)
             kind = rng.choice(("path", "star", "cycle", "dn.path", "dn.star", "dn.cycle", "addfrom"))
+            if rng.random() < 0.08:
+                # a bunch that yields no pair (an empty star / cycle has no centre / closing node: not generated)
+                ns = ns[:rng.choice((0, 1))] if kind in ("path", "dn.path") else ns[:1]
+            last_bulk = [o for o in prog if o[0] in ("path", "star", "cycle")]
+            if last_bulk and rng.random() < 0.3:
+                # the caller re-uses the node list of an earlier helper call (same list object, see driver)
+                ns = list(last_bulk[-1][1])
+                kind = last_bulk[-1][0]
+                t = max(t, last_bulk[-1][2]) + rng.randint(0, 2)
             if kind == "addfrom":
                 e = None if rng.random() < 0.5 else t + rng.randint(1, 3)
                 eb = [(ns[i], ns[i + 1]) for i in range(len(ns) - 1)]
@@ -253,9 +285,9 @@ def elements(op):
         elif base == "star":
             eb = [(ns[0], n) for n in ns[1:]]
         else:
-            eb = list(zip(ns, ns[1:] + [ns[0]]))
+            eb = list(zip(ns, ns[1:] + [ns[0]])) if ns else []
         return [(u, v, t, e) for u, v in eb]
-    if kind in ("node", "clear", "clear_edges"):
+    if kind in ("node", "nodes_from", "clear", "clear_edges"):
         return []
     raise ValueError(op)
 
@@ -267,6 +299,10 @@ def _advance(m, op):
         return None
     if op[0] in ("clear", "clear_edges"):
         m.clear(edges_only=op[0] == "clear_edges")
+        return None
+    if op[0] == "nodes_from":
+        for n, d in op[1]:
+            m.nodes.setdefault(n, {}).update(d)
         return None
     els = elements(op)
     if op[0] != "add" and els and els[0][2] is None:
